@@ -740,3 +740,11 @@ mod tests {
         );
     }
 }
+
+#[cfg(chokan_verif)]
+impl NodePointer {
+    /// verification hook: (index in the input, index among the nodes ending there)
+    pub fn verif_parts(&self) -> (usize, usize) {
+        (self.0, self.1)
+    }
+}
